@@ -111,7 +111,15 @@ fn pick_filter(rng: &mut Prng) -> (String, Option<Filter>) {
 
 fn build_message(id: u32, typ: Typ, rs: Option<u32>, sender: &Option<String>, member: &str, big: usize) -> MarshalledMessage {
     let mut msg = match typ {
-        Typ::Call => MessageBuilder::new().call(member).on("/o/p").with_interface("a.b").at("org.me").build(),
+        Typ::Call => {
+            // the interface of a call is optional; well-known members come with their interface, with another one, or bare
+            let b = MessageBuilder::new().call(member).on("/o/p");
+            match (member.len() > 2, id % 3) {
+                (true, 0) => b.with_interface("org.freedesktop.DBus.Peer").at("org.me").build(),
+                (true, 1) => b.at("org.me").build(),
+                _ => b.with_interface("a.b").at("org.me").build(),
+            }
+        }
         Typ::Signal => MessageBuilder::new().signal("a.b", member, "/o/p").to("org.me").build(),
         Typ::Reply | Typ::Error => {
             let fake_call = DynamicHeader {
@@ -618,7 +626,14 @@ fn history(out: &mut Out, rng: &mut Prng, max_ops: usize) {
             None
         };
         let sender = rng.pick(&senders).clone();
-        let member = if rng.chance(1, 2) { "Ma" } else { "Mb" };
+        // mostly Ma / Mb; now and then a name the library knows from the standard interfaces (a rejected call is answered
+        // with UnknownMethod whatever it is called)
+        let member = match rng.below(8) {
+            0..=2 => "Ma",
+            3..=5 => "Mb",
+            6 => "Ping",
+            _ => *rng.pick(&["GetMachineId", "Hello", "Introspect", "Ping"]),
+        };
         let big = if !*big_used && rng.chance(1, 40) {
             *big_used = true;
             h.out.hit("message_larger_than_one_read");
